@@ -4,3 +4,11 @@ From ArgMapper.proofs Require Import C0911Once.
 Theorem C09 : C09_statement.
 Proof. exact C09_proof. Qed.
 Print Assumptions C09.
+
+(* over histories: erasing the Redefine operations of ANY history of Calls and
+   Redefines changes nothing for the Calls -- same outcomes, traces, worlds *)
+From ArgMapper Require Import HistoryStatements.
+From ArgMapper.proofs Require Import C0911Hist.
+Theorem C09_history : C09_history_statement.
+Proof. exact C09_history_proof. Qed.
+Print Assumptions C09_history.
